@@ -1,6 +1,6 @@
-"""C01 - UDS request codec: real request classes (`.pdu`, `Class.from_pdu`, `UDSRequest.parse_dynamic`) and the bytes
-`UDSClient.<service method>()` hands to the transport, against Model/UdsReq.lean (the ISO 14229-1 layout oracle:
-`mk` = construction with range checks, `encode`, `decode`)."""
+"""C01 - UDS request codec: real request classes (`.pdu`, `Class.from_pdu`, `UDSRequest.parse_dynamic`) against Model/UdsReq.lean (the
+ISO 14229-1 layout oracle: `mk` = construction with range checks, `encode`, `decode`), and the bytes `UDSClient.<service method>()` /
+`ECU.<helper>()` hand to the transport against Model/UdsClientApi.lean (`denote`: which request a method call stands for)."""
 import asyncio
 import importlib.util
 import inspect
@@ -10,7 +10,7 @@ from pathlib import Path
 from common import VERIF, hx, setup_repo_import
 
 ID = "C01"
-GENS = ["c01_registry"]
+GENS = ["c01_registry", "c01_api"]
 PROOF = "Gallia.Proofs.C01"
 DRIVER = "c01"
 ORACLE = True
@@ -18,8 +18,11 @@ ASSUMPTIONS = [
     "struct.pack / int.to_bytes / int.from_bytes behave as documented (big-endian, OverflowError / struct.error when a value does not fit)",
     "a refusal is any exception raised by the constructor or by the first read of `.pdu` (the property only asks for 'an error rather than a wrong PDU'); the exception class is not compared",
     "base classes (SubFunctionRequest, SpecializedSubFunctionRequest, RoutineControlRequest, _ReadDTCType0/6Request, _RequestUpOrDownloadRequest, ...) are not requests a user is meant to construct",
-    "arguments are of the annotated Python types (int / bytes / bool / sequences of int); duck-typed misuse is outside the model",
+    "arguments are of the annotated Python types (int / bytes / bool / None / sequences of int); duck-typed misuse is outside the model",
     "controlOptionRecord and controlEnableMaskRecord of InputOutputControlByIdentifier come back as their concatenation (no length field exists; documented in the code)",
+    "Python's binding of positional / keyword arguments to parameter names is the documented one (the model binds by name; the harness passes the same values positionally, by keyword and with optional ones left out)",
+    "the `config` parameter (timeout / retries / tags) does not influence which request is built: the AST translator drops it from signatures and call sites and the model has no counterpart",
+    "ECU helpers are modelled up to the requests they build when every reply is positive: ping, read_session, set_session (hooks do nothing, no database transitions), read_dtc, clear_dtc, read_vin, refresh_state, transmit_data, leave_session; check_and_set_session, the tester-present worker and wait_for_ecu only through their regenerated call sites (callSites), not through a run",
 ]
 
 _spec = importlib.util.spec_from_file_location("c01_registry", VERIF / "gen" / "c01_registry.py")
@@ -421,47 +424,13 @@ class Gen:
 
 
 # ------------------------------------------------------------------------------------------------------------------
-# client glue: UDSClient.<method>(...) -> bytes handed to the transport
+# client glue: UDSClient.<method>(...) / ECU.<helper>(...) -> bytes handed to the transport.
+# WHICH request a call denotes (argument order, defaults of left-out arguments, the sub-function a convenience method fixes, the
+# identifiers the ECU helpers name) is the Lean `denote` of Model/UdsClientApi.lean (driver command `call`); the harness only knows
+# how to spell a value.  Parameter names / defaults / generator type hints come from the model (`sig`).
 # ------------------------------------------------------------------------------------------------------------------
 INFRA = {"connect", "reconnect", "reconnect_unsafe", "request", "request_unsafe"}
-# method -> (akind, fixed prefix of model params)
-METHODS = {
-    "send_raw": ("raw", ()),
-    "diagnostic_session_control": ("dsc", ()),
-    "ecu_reset": ("ecuReset", ()),
-    "security_access_request_seed": ("requestSeed", ()),
-    "security_access_send_key": ("sendKey", ()),
-    "communication_control": ("commCtrl", ()),
-    "tester_present": ("testerPresent", ()),
-    "control_dtc_setting": ("controlDTC", ()),
-    "read_data_by_identifier": ("rdbi", ()),
-    "read_memory_by_address": ("rmba", ()),
-    "write_data_by_identifier": ("wdbi", ()),
-    "write_memory_by_address": ("wmba", ()),
-    "clear_diagnostic_information": ("clearDTC", ()),
-    "read_dtc_information_report_number_of_dtc_by_status_mask": ("dtcByMask", (0x01,)),
-    "read_dtc_information_report_dtc_by_status_mask": ("dtcByMask", (0x02,)),
-    "read_dtc_information_report_mirror_memory_dtc_by_status_mask": ("dtcByMask", (0x0F,)),
-    "read_dtc_information_report_number_of_mirror_memory_dtc_by_status_mask": ("dtcByMask", (0x11,)),
-    "read_dtc_information_report_number_of_emissions_related_obd_dtc_by_status_mask": ("dtcByMask", (0x12,)),
-    "read_dtc_information_report_emissions_related_obd_dtc_by_status_mask": ("dtcByMask", (0x13,)),
-    "report_dtc_extended_data_record_by_dtc_number": ("dtcExtByNumber", ()),
-    "input_output_control_by_identifier": ("iocbi", ()),
-    "input_output_control_by_identifier_return_control_to_ecu": ("iocbiConv", (0,)),
-    "input_output_control_by_identifier_reset_to_default": ("iocbiConv", (1,)),
-    "input_output_control_by_identifier_freeze_current_state": ("iocbiConv", (2,)),
-    "input_output_control_by_identifier_short_term_adjustment": ("iocbiShortTerm", ()),
-    "routine_control_start_routine": ("routine", (1,)),
-    "routine_control_stop_routine": ("routine", (2,)),
-    "routine_control_request_routine_results": ("routine", (3,)),
-    "request_download": ("reqDownload", ()),
-    "request_upload": ("reqUpload", ()),
-    "transfer_data": ("transferData", ()),
-    "request_transfer_exit": ("transferExit", ()),
-    "define_by_identifier": ("defineById", ()),
-    "define_by_memory_address": ("defineByMem", ()),
-    "clear_dynamically_defined_data_identifier": ("clearDDDI", ()),
-}
+OMIT = "<omitted>"  # marker inside argument lists: the optional argument is left out
 
 
 class _Captured(Exception):
@@ -484,38 +453,132 @@ class _Transport:
         raise TimeoutError()
 
 
-# what an omitted optional parameter means (ISO 14229-1 / the documented API): no suppression, empty optional records, method 0 (no
-# compression / encryption), format byte and size computed from the values.  Written down here, NOT read from the signatures, so that
-# a changed default in client.py / service.py shows up as different bytes for the same intended request.
-OMITTED_MEANS = {"suppress_response": False, "compression_method": 0, "encryption_method": 0, "address_and_length_format_identifier": None,
-                 "control_enable_mask_record": b"", "dtc_setting_control_option_record": b"", "memory_size": None,
-                 "routine_control_option_record": b"", "security_access_data_record": b"", "transfer_request_parameter_record": b""}
+class _Responder(_Transport):
+    """answers every request with the shortest positive response that matches it (ECU helpers look at the reply)"""
+
+    async def request_unsafe(self, data, timeout=None, tags=None):
+        d = bytes(data)
+        self.sent.append(d)
+        sid = d[0] if d else 0
+        if sid == 0x10:
+            return bytes([0x50, d[1] & 0x7F, 0x00, 0x32, 0x01, 0xF4])
+        if sid in (0x11, 0x3E):
+            return bytes([sid + 0x40, d[1] & 0x7F])
+        if sid == 0x22:
+            return bytes([0x62]) + d[1:3] + b"\x01"
+        if sid == 0x19:
+            return bytes([0x59, d[1] & 0x7F, 0xFF])
+        if sid == 0x36:
+            return bytes([0x76, d[1]])
+        return bytes([(sid + 0x40) & 0xFF])
+
+    async def reconnect(self, timeout=None):
+        return self
 
 
-def omit_defaults(method, args):
-    """the same call as keyword arguments, with every optional argument left out whose given value is what leaving it out means
-    -> (kwargs, number of arguments left out)"""
-    import inspect
+class Api:
+    """the model's view of the API (driver commands `methods` / `sig`)"""
 
-    from gallia.services.uds.core.client import UDSClient
+    def __init__(self, ctx):
+        line = ctx.lean(["methods"])[0]
+        if " | " not in line:
+            raise RuntimeError("driver: methods -> " + line[:100])
+        c, e = line.split(" | ")
+        self.client, self.ecu = c.split(), e.split()
+        names = self.client + self.ecu + ["transmit_data", "leave_session", "_tester_present"]
+        self.sig = {}
+        self._lim = {}
+        for n, out in zip(names, ctx.lean(["sig " + n for n in names])):
+            ps = []
+            if out != "-":
+                for item in out.split(" "):
+                    name, dflt, ty = item.split("|")
+                    ps.append((name, dflt, ty))
+            self.sig[n] = ps
 
-    names = [p for p in inspect.signature(getattr(UDSClient, method)).parameters if p not in ("self", "config")]
-    kw, dropped = {}, 0
-    for n, a in zip(names, args):
-        if n in OMITTED_MEANS and type(a) is type(OMITTED_MEANS[n]) and a == OMITTED_MEANS[n]:
-            dropped += 1
+    def load_ctors(self, ctx):
+        """method -> (request class name, [(constructor parameter, method parameter)]) of its construction site"""
+        self.ctor = {}
+        for n, out in zip(self.client, ctx.lean(["ctor " + n for n in self.client])):
+            if out == "-" or out == "unknown-method":
+                continue
+            cls, *items = out.split(" ")
+            pairs = [tuple(x.split("=", 1)) for x in items]
+            if all(not b.startswith(("const:", "expr")) for _, b in pairs):
+                self.ctor[n] = (cls, pairs)
+
+    def pos_limit(self, meth):
+        """number of parameters that can be passed positionally: those in front of `config` in the live signature"""
+        if meth not in self._lim:
+            import inspect as I
+
+            from gallia.services.uds.ecu import ECU
+
+            names = [n for n in I.signature(getattr(ECU, meth)).parameters if n != "self"] if hasattr(ECU, meth) else []
+            self._lim[meth] = names.index("config") if "config" in names else len(names)
+        return self._lim[meth]
+
+    def optional(self, meth):
+        return [i for i, (_, d, _) in enumerate(self.sig[meth]) if d != "req"]
+
+
+def default_value(tokn):
+    """the value a default token of a `sig` line stands for"""
+    if tokn == "none":
+        return None
+    kind, _, v = tokn.partition(":")
+    return {"bool": lambda: v == "1", "int": lambda: int(v), "bytes": lambda: bytes.fromhex(v) if v != "-" else b""}[kind]()
+
+
+_API = None  # the Api of the current run (shrinking un-omits arguments with the model's defaults)
+
+
+def tok(v, ty):
+    """one argument of a `call` line"""
+    if is_omit(v):
+        return "_"
+    if v is None:
+        return "none"
+    if isinstance(v, bool):
+        return b01(v)
+    if isinstance(v, (bytes, bytearray)):
+        return ("h:" if ty == "boi24" else "") + hx(v)
+    if isinstance(v, list):
+        return lst(v)
+    if ty.startswith("il"):
+        return f"s:{v}"
+    return str(v)
+
+
+def call_line(api, meth, args):
+    tys = [t for _, _, t in api.sig[meth]]
+    return " ".join(["call", meth] + [tok(v, t) for v, t in zip(args, tys)])
+
+
+def py_call(api, meth, args, spelling):
+    """(positional, keyword) arguments of the real call: an omitted argument is absent, everything behind it goes by keyword;
+    spelling `keyword` passes every argument by the name the model gives the parameter"""
+    names = [n for n, _, _ in api.sig[meth]]
+    pos, kw = [], {}
+    by_kw = spelling == "keyword"
+    lim = api.pos_limit(meth)
+    for i, (n, v) in enumerate(zip(names, args)):
+        if is_omit(v):
+            by_kw = True
+        elif by_kw or i >= lim:
+            kw[n] = v
         else:
-            kw[n] = a
-    return kw, dropped
+            pos.append(v)
+    return pos, kw
 
 
-def client_call(loop, method, args, kwargs=None):
+def client_call(loop, meth, pos, kw, cls=None, transport=None):
     from gallia.services.uds.core.client import UDSClient
 
-    t = _Transport()
-    c = UDSClient(t, timeout=1.0, max_retry=0)
+    t = (transport or _Transport)()
+    c = (cls or UDSClient)(t, timeout=1.0, max_retry=0)
     try:
-        loop.run_until_complete(getattr(c, method)(*args, **(kwargs or {})))
+        loop.run_until_complete(getattr(c, meth)(*pos, **kw))
     except _Captured:
         pass
     except Exception as e:  # noqa: BLE001
@@ -524,6 +587,145 @@ def client_call(loop, method, args, kwargs=None):
     if len(t.sent) != 1:
         return "sent", ",".join(hx(x) for x in t.sent) or "nothing"
     return "sent", hx(t.sent[0])
+
+
+def ecu_call(meth, pos, kw):
+    """run an ECU helper against the positive responder under virtual time -> ("err", exception) | ("sent", pdus comma separated)"""
+    from vloop import vrun
+
+    from gallia.services.uds.ecu import ECU
+
+    t = _Responder()
+    e = ECU(t, timeout=1.0, max_retry=0)
+    try:
+        vrun(getattr(e, meth)(*pos, **kw), horizon=600.0)
+    except Exception as ex:  # noqa: BLE001
+        if not t.sent:
+            return "err", type(ex).__name__
+        # what happens after the request is on the wire (reply parsing, state tracking) is not this property's business
+    return "sent", ",".join(hx(x) for x in t.sent) or "nothing"
+
+
+# ---- argument generators, driven by the type hints of the model's signatures
+class ArgGen:
+    def __init__(self, ctx, gen):
+        self.ctx, self.rng, self.g = ctx, ctx.rng, gen
+
+    def field(self, name, ty):
+        """(name, good(rng) -> value, edges [(label, value)])"""
+        g, r = self.g, self.rng
+        if ty == "bool":
+            return (name, lambda q: q.random() < 0.5, [("0", False), ("1", True)])
+        if ty in ("i7", "i8", "i16", "i24", "i4"):
+            return g.f_int(name, {"i7": 0x7F, "i8": 0xFF, "i16": 0xFFFF, "i24": 0xFFFFFF, "i4": 0xF}[ty])
+        if ty == "i7odd":
+            return (name, lambda q: q.choice([1, 3, 0x11, 0x7D, 0x7F]), ints(0x7F) + [("even", 2), ("0x7d", 0x7D), ("0x81", 0x81)])
+        if ty == "i7even":
+            return (name, lambda q: q.choice([0, 2, 4, 0x12, 0x7C, 0x7E]), ints(0x7F) + [("odd", 3), ("0x7e", 0x7E), ("0x80", 0x80)])
+        if ty in ("b", "b1"):
+            return g.f_bytes(name)
+        if ty == "oi16":
+            return (name, lambda q: q.choice([None, 0xF300, q.randint(0, 0xFFFF)]), [("none", None)] + ints(0xFFFF))
+        if ty == "boi24":
+            return (name, lambda q: q.choice([q.randint(0, 0xFFFFFF), rbytes(q, 3)]),
+                    ints(0xFFFFFF) + [("bytes-empty", b""), ("bytes-2", b"\x00\x01"), ("bytes-3", b"\xff\xff\xff"), ("bytes-4", b"\x00\x00\x00\x01")])
+        if ty in ("il16", "il8"):
+            mx = 0xFFFF if ty == "il16" else 0xFF
+            n, gd, edges = g.f_list(name, mx)
+            return (n, lambda q: gd(q) if q.random() < 0.7 else q.choice([0, 1, mx]),
+                    edges + [("scalar-0", 0), ("scalar-max", mx), ("scalar-max+1", mx + 1), ("scalar--1", -1)])
+        if ty == "addr":
+            return (name, lambda q: q.choice([0, 0x10, 0x1000, 0xFFFFFFFF, q.randrange(256 ** q.randint(1, 8))]),
+                    [("0", 0), ("-1", -1), ("255", 255), ("256", 256), ("256^15-1", 256 ** 15 - 1), ("256^15", 256 ** 15)])
+        if ty == "size":
+            return (name, lambda q: q.choice([0, 1, 0x20, 0xFFFF, q.randrange(256 ** q.randint(1, 4))]),
+                    [("0", 0), ("-1", -1), ("255", 255), ("256", 256), ("256^15-1", 256 ** 15 - 1), ("256^15", 256 ** 15)])
+        if ty == "osize":
+            return (name, lambda q: q.choice([None, None, 0, 1, 2, 0x100]), [("none", None), ("0", 0), ("1", 1), ("-1", -1), ("256^15", 256 ** 15)])
+        if ty == "alfid":
+            return (name, lambda q: q.choice([None, None, 0x44, 0x88, 0xFF]),
+                    [("none", None), ("00", 0), ("01", 1), ("10", 0x10), ("11", 0x11), ("ff", 0xFF), ("100", 0x100), ("-1", -1)])
+        if ty in ("iladdr", "ilsize"):
+            def gd(q):
+                k = q.choice([1, 1, 2, 3])
+                return [q.randrange(256 ** q.randint(1, 4)) for _ in range(k)] if q.random() < 0.7 else q.randrange(256 ** 2)
+            return (name, gd, [("empty", []), ("one", [1]), ("scalar", 0x1234), ("scalar--1", -1), ("elem--1", [-1]), ("wide", [256 ** 15 - 1]), ("too-wide", [256 ** 15])])
+        raise RuntimeError(f"no generator for parameter type {ty}")
+
+    def cases(self, api, meth):
+        """[(args, label)]: base + every edge of every parameter (one moved at a time) + random mixes + the address/size/format sweep"""
+        fields = [self.field(n, ty) for n, _, ty in api.sig[meth]]
+        rng = self.rng
+        out = []
+        if not fields:
+            return [([], "base")]
+        for _ in range(self.ctx.pick(2, 8)):
+            base = [g(rng) for _, g, _ in fields]
+            out.append((base, "base"))
+            for i, (name, _, edges) in enumerate(fields):
+                for label, v in edges:
+                    p = list(base)
+                    p[i] = v
+                    out.append((p, f"{name}={label}"))
+        for _ in range(self.ctx.pick(12, 300)):
+            out.append(([g(rng) if rng.random() < 0.8 else rng.choice(edges)[1] for _, g, edges in fields], "mixed"))
+        tys = [ty for _, _, ty in api.sig[meth]]
+        # small integer domains exhaustively (every sub-function / mask / counter / method nibble), for each setting of the flags
+        small = {"i7": 128, "i7odd": 128, "i7even": 128, "i8": 256, "i4": 16}
+        bools = [i for i, ty in enumerate(tys) if ty == "bool"]
+        for i, ty in enumerate(tys):
+            if ty in small:
+                base = [g(rng) for _, g, _ in fields]
+                for flags in range(1 << len(bools)):
+                    for j, bi in enumerate(bools):
+                        base[bi] = bool(flags >> j & 1)
+                    for v in range(small[ty]):
+                        p = list(base)
+                        p[i] = v
+                        out.append((p, f"{fields[i][0]}=all"))
+        if "alfid" in tys:
+            trip = self.g.mem_triples()
+            if self.ctx.quick and not self.ctx.widened:
+                trip = [t for i, t in enumerate(trip) if i % 4 == (len(meth) % 4) or not t[3].startswith(("explicit", "computed"))]
+            for a, s, f, lab in trip:
+                p = [g(rng) for _, g, _ in fields]
+                for i, ty in enumerate(tys):
+                    if ty == "addr":
+                        p[i] = a
+                    elif ty in ("size", "osize"):
+                        p[i] = s
+                    elif ty == "iladdr":
+                        p[i] = [a]
+                    elif ty == "ilsize":
+                        p[i] = [s]
+                    elif ty == "alfid":
+                        p[i] = f
+                out.append((p, "mem:" + lab))
+        return out
+
+
+def spellings(api, meth, args, idx, rng, exhaustive):
+    """the ways one tuple of argument values is passed: all positional; optional ones left out (each subset when `exhaustive`, else
+    one random non-empty subset); all by keyword (every third case)"""
+    out = [(list(args), "positional")]
+    opt = api.optional(meth)
+    if opt:
+        if exhaustive:
+            subsets = [[i for j, i in enumerate(opt) if m >> j & 1] for m in range(1, 1 << len(opt))]
+        else:
+            subsets = [[i for i in opt if rng.random() < 0.6] or [rng.choice(opt)]]
+        for sub in subsets:
+            a = list(args)
+            for i in sub:
+                a[i] = OMIT
+            out.append((a, "positional"))
+    if args and (exhaustive or idx % 3 == 0):
+        out.append((list(args), "keyword"))
+        if opt:
+            a = list(args)
+            a[rng.choice(opt)] = OMIT
+            out.append((a, "keyword"))
+    return out
 
 
 # ------------------------------------------------------------------------------------------------------------------
@@ -550,7 +752,11 @@ def jparams(p):
 
 
 def unj(p):
-    return [(bytes.fromhex(x["hex"]) if isinstance(x, dict) else x) for x in p]
+    return [(bytes.fromhex(x["hex"]) if isinstance(x, dict) else (OMIT if is_omit(x) else x)) for x in p]
+
+
+def is_omit(v):
+    return isinstance(v, str) and v == OMIT
 
 
 class Findings:
@@ -581,7 +787,7 @@ class Findings:
         for pkey in sorted(per_key):
             for slot in per_key[pkey][: (3 if budget > 0 else 1)]:
                 entry = self.best[slot]
-                if evaluate is not None and budget > 0 and entry[2].get("direction") in ("object->bytes", "bytes->object", "client"):
+                if evaluate is not None and budget > 0 and entry[2].get("direction") in ("object->bytes", "bytes->object", "client", "ctor"):
                     budget -= 1
                     entry = shrink(entry, pkey, evaluate)
                 _, what, case, impl, model, site, spec = entry
@@ -597,8 +803,12 @@ def case_text(case):
     if d == "bytes->object":
         return case["pdu"]
     if d == "client":
-        akind, prefix = METHODS[case["method"]]
-        return mk_line(akind, list(prefix) + unj(case["args"]))[3:]
+        return case.get("spelling", "positional") + " " + " ".join(
+            "_" if is_omit(a) else (a.hex() or "-") if isinstance(a, bytes) else str(a).replace(" ", "") for a in unj(case["args"]))
+    if d == "ctor":
+        return " ".join("_" if is_omit(a) else (a.hex() or "-") if isinstance(a, bytes) else str(a).replace(" ", "") for a in unj(case["args"]))
+    if d == "transmit":
+        return f"{case['data_len']}:{case['block_length']}:{case['max_block_length']}:{case.get('spelling', 'positional')}"
     if d == "object->bytes":
         return mk_line(case["kind"], unj(case["params"]))[3:]
     return case.get("method", "")
@@ -656,6 +866,20 @@ def shrink(entry, pkey, evaluate, rounds=120):
         else:
             field = "params" if d == "object->bytes" else "args"
             p = unj(case[field])
+            if d in ("client", "ctor") and _API is not None:
+                # first spell out left-out arguments (fewest omissions that still fail), then pass positionally
+                for i, a in enumerate(p):
+                    if is_omit(a):
+                        q = list(p)
+                        q[i] = default_value(_API.sig[case["method"]][i][1])
+                        c2 = dict(case)
+                        c2[field] = jparams(q)
+                        c2["_size"] = size_of(q)
+                        cands.append(c2)
+                if case.get("spelling") == "keyword":
+                    c2 = dict(case)
+                    c2["spelling"] = "positional"
+                    cands.append(c2)
             skip = 0
             if d == "object->bytes" and case["kind"] in ("dtcByMask", "dtcPlain", "routine", "iocbiConv"):
                 skip = 1
@@ -802,41 +1026,198 @@ def eval_bytes(ctx, impl, bs, count=False):
     return fs, typed
 
 
-def eval_client(ctx, loop, calls, count=False):
-    """calls: [(method, args, label)]"""
-    m_out = ctx.lean([mk_line(METHODS[meth][0], list(METHODS[meth][1]) + list(args)) for meth, args, _ in calls])
+def eval_client(ctx, loop, api, calls, count=False):
+    """calls: [(method, args (values, OMIT for a left-out optional one), spelling, label, group)]; the spellings of one tuple of
+    values share a group and only the first failing spelling of a group is recorded"""
+    m_out = ctx.lean([call_line(api, meth, args) for meth, args, _, _, _ in calls])
+    fs = []
+    failed_groups = set()
+    for (meth, args, spelling, label, gid), m in zip(calls, m_out):
+        if m == "bad-op":
+            raise RuntimeError(f"driver rejected: {call_line(api, meth, args)[:200]}")
+        F = Findings()
+        fs.append(F)
+        pos, kw = py_call(api, meth, args, spelling)
+        owner = "ECU" if meth in api.ecu else "UDSClient"
+        st, val = ecu_call(meth, pos, kw) if meth in api.ecu else client_call(loop, meth, pos, kw)
+        omitted = [n for (n, _, _), a in zip(api.sig[meth], args) if is_omit(a)]
+        if count:
+            ctx.ev()
+            ctx.kind("client:" + meth)
+            ctx.kind("client-spelling:" + spelling + ("+omitted" if omitted else ""))
+            ctx.nontrivial(("client", meth, repr(args), spelling))
+        want = ("err", None) if m == "err" else ("sent", m.split(" ", 2)[1])
+        if st == want[0] and (st == "err" or val == want[1]) or gid in failed_groups:
+            continue
+        failed_groups.add(gid)
+        case = {"direction": "client", "method": meth, "args": jparams(args), "spelling": spelling, "varied": label, "_size": size_of(args)}
+        shown = f"{owner}.{meth}({', '.join([repr(x)[:40] for x in pos] + [f'{k}={v!r:.40}' for k, v in kw.items()])})"
+        if omitted:
+            cat = "client-default"
+        elif spelling == "keyword":
+            cat = "client-keyword"
+        else:
+            cat = "client"
+        if want[0] == "err":
+            key = f"{cat}-sent-out-of-range:{meth}"
+        elif st == "err":
+            key = f"{cat}-refused-valid:{meth}:{val}"
+        else:
+            got = bytes.fromhex(val) if val not in ("-", "nothing") and "," not in val else b""
+            key = f"{cat}-bytes:{meth}:{first_diff(got, bytes.fromhex(want[1]) if want[1] != '-' else b'')}"
+        F.add(key, f"{shown[:200]} hands {val[:60]} to the transport; the request the call denotes encodes to {want[1] and want[1][:60]}"
+              + (f" (left out: {', '.join(omitted)})" if omitted else ""),
+              case, impl={"status": st, "value": val}, model=m[:300], site=f"{owner}.{meth}")
+    return fs
+
+
+def eval_ctor_defaults(ctx, impl, api, calls, count=False):
+    """the request classes themselves, constructed with keyword arguments and optional ones left out, against the `denote` of the same
+    method call (the constructor defaults are the documented defaults too).  calls: [(method, args, label)]"""
+    calls = [c for c in calls if c[0] in api.ctor]
+    m_out = ctx.lean([call_line(api, meth, args) for meth, args, _ in calls])
     fs = []
     for (meth, args, label), m in zip(calls, m_out):
         F = Findings()
         fs.append(F)
-        st, val = client_call(loop, meth, args)
-        short, n_dropped = omit_defaults(meth, args)
-        if n_dropped:
-            st2, val2 = client_call(loop, meth, (), short)
-            if count:
-                ctx.kind("client:optional-arguments-omitted")
-            if (st2, val2) != (st, val):
-                F.add(f"client-default:{meth}:{n_dropped}-omitted", f"UDSClient.{meth}(**{jparams_kw(short)!r:.90}) - optional arguments left out - hands {val2[:60]} to the "
-                      f"transport, with the arguments spelled out ({args!r:.80}) it hands {val[:60]}",
-                      {"direction": "client", "method": meth, "kwargs": jparams_kw(short), "varied": "defaults", "_size": size_of(list(short.values()))},
-                      impl={"status": st2, "value": val2}, model={"status": st, "value": val}, site=f"UDSClient.{meth} (default arguments)")
+        cname, pairs = api.ctor[meth]
+        by_name = {n: a for (n, _, _), a in zip(api.sig[meth], args)}
+        kw = {cp: by_name[mp] for cp, mp in pairs if not is_omit(by_name[mp])}
+        omitted = [cp for cp, mp in pairs if is_omit(by_name[mp])]
+        try:
+            pdu = getattr(impl.S, cname)(**kw).pdu
+            st, val = "ok", hx(bytes(pdu))
+        except Exception as e:  # noqa: BLE001
+            st, val = "err", type(e).__name__
         if count:
             ctx.ev()
-            ctx.kind("client:" + meth)
-            ctx.nontrivial(("client", meth, repr(args)))
-        want = ("err", None) if m == "err" else ("sent", m.split(" ", 2)[1])
-        case = {"direction": "client", "method": meth, "args": jparams(args), "varied": label, "_size": size_of(args)}
-        if st != want[0] or (st == "sent" and val != want[1]):
-            if want[0] == "err":
-                key = f"client-sent-out-of-range:{meth}"
-            elif st == "err":
-                key = f"client-refused-valid:{meth}:{val}"
-            else:
-                got = bytes.fromhex(val) if val not in ("-", "nothing") and "," not in val else b""
-                key = f"client-bytes:{meth}:{first_diff(got, bytes.fromhex(want[1]) if want[1] != '-' else b'')}"
-            F.add(key, f"UDSClient.{meth}({args!r:.100}) hands {val[:60]} to the transport; intended request encodes to {want[1] and want[1][:60]}",
-                  case, impl={"status": st, "value": val}, model=m[:300], site=f"UDSClient.{meth}")
+            ctx.kind("ctor-default:" + cname)
+            ctx.nontrivial(("ctor", cname, repr(args)))
+        want = ("err", None) if m == "err" else ("ok", m.split(" ", 2)[1])
+        if st == want[0] and (st == "err" or val == want[1]):
+            continue
+        what = "accepted-out-of-range" if want[0] == "err" else f"refused-valid:{val}" if st == "err" else \
+            "layout:" + first_diff(bytes.fromhex(val) if val != "-" else b"", bytes.fromhex(want[1]) if want[1] != "-" else b"")
+        case = {"direction": "ctor", "method": meth, "class": cname, "args": jparams(args), "varied": label, "_size": size_of(args)}
+        F.add(f"ctor-default:{cname}:{what}", f"{cname}({', '.join(f'{k}={v!r:.40}' for k, v in kw.items())}) - left out: {', '.join(omitted) or 'nothing'} - "
+              f"gives {val[:60]}; the request these arguments denote encodes to {want[1] and want[1][:60]}",
+              case, impl={"status": st, "value": val}, model=m[:300], site=f"{cname}.__init__")
     return fs
+
+
+def transmit_cases(ctx):
+    """(data length, block_length, max_block_length | OMIT, spelling): sizes around the block length, block lengths around the
+    minimum and around the maximum, more than 255 blocks"""
+    out = []
+    for bl in (-1, 0, 1, 2, 3, 4, 5, 9):
+        p = max(bl - 2, 1)
+        for n in (0, 1, p - 1, p, p + 1, 2 * p - 1, 2 * p, 2 * p + 1, 254 * p, 255 * p, 255 * p + 1, 256 * p, 256 * p + 1, 257 * p + 2, 513 * p):
+            if n >= 0:
+                out.append((n, bl, OMIT, "positional"))
+    for bl, mbl in ((4, 3), (4, 4), (4, 5), (9, 3), (9, 2), (9, 1), (9, 0), (9, -1), (2, 9), (1, 9), (3, 3), (0x2000, 10), (10, 0x2000), (5, None)):
+        for n in (0, 1, 7, 8, 9, 30):
+            if mbl is not None:
+                out.append((n, bl, mbl, "positional"))
+                out.append((n, bl, mbl, "keyword"))
+    for bl in (0xFFE, 0xFFF, 0x1000, 0x1001, 0x2000):
+        for n in (0, 1, 0xFFC, 0xFFD, 0xFFE, 2 * 0xFFD, 2 * 0xFFD + 1):
+            out.append((n, bl, OMIT, "positional"))
+            out.append((n, bl, 0x1000, "positional"))
+            out.append((n, bl, OMIT, "keyword"))
+    rng = ctx.rng
+    for _ in range(ctx.pick(40, 600)):
+        bl = rng.choice([3, 4, 5, 6, 7, 16, 64, rng.randint(-2, 40)])
+        out.append((rng.randint(0, 40 * max(bl, 1)), bl, rng.choice([OMIT, OMIT, rng.randint(0, 20), 0xFFF]), rng.choice(["positional", "keyword"])))
+    return out
+
+
+def xmit_data(n):
+    return bytes((i * 7 + i // 251) % 256 for i in range(n))
+
+
+def eval_transmit(ctx, cases, count=False):
+    m_out = ctx.lean([f"xmit {hx(xmit_data(n))} {bl} {'_' if is_omit(mbl) else mbl}" for n, bl, mbl, _ in cases])
+    fs = []
+    for (n, bl, mbl, spelling), m in zip(cases, m_out):
+        if m == "bad-op":
+            raise RuntimeError("driver rejected an xmit line")
+        F = Findings()
+        fs.append(F)
+        data = xmit_data(n)
+        if spelling == "keyword":
+            pos, kw = [], {"data": data, "block_length": bl}
+        else:
+            pos, kw = [data, bl], {}
+        if not is_omit(mbl):
+            kw["max_block_length"] = mbl
+        st, val = ecu_call("transmit_data", pos, kw)
+        if count:
+            ctx.ev()
+            nblocks = m.count(",") if m != "err" else -1
+            ctx.kind("transmit_data:" + ("refused" if m == "err" else "0-blocks" if nblocks == 0 else "1..255-blocks" if nblocks <= 255 else ">255-blocks"))
+            ctx.nontrivial(("transmit", n, bl, repr(mbl), spelling))
+        if (st == "err" and m == "err") or (st == "sent" and val == m):
+            continue
+        case = {"direction": "transmit", "data_len": n, "block_length": bl, "max_block_length": None if is_omit(mbl) else mbl, "spelling": spelling,
+                "varied": "", "_size": (16 * n if n else 1 << 30) + abs(bl) + (0 if is_omit(mbl) else 1 + abs(mbl))}  # smallest non-empty data first
+        if m == "err":
+            key, what = "transmit-data:sent-out-of-range", f"sends {val[:60]} although the block length leaves no room for payload (must be refused)"
+        elif st == "err":
+            key, what = f"transmit-data:refused-valid:{val}", f"raises {val}; expected the PDUs {m[:60]}"
+        else:
+            got, want = val.split(","), m.split(",")
+            i = next((j for j, (x, y) in enumerate(zip(got, want)) if x != y), min(len(got), len(want)))
+            which = "count" if i >= min(len(got), len(want)) else "block-counter" if got[i][:2] == want[i][:2] == "36" and got[i][2:4] != want[i][2:4] else "block"
+            key = f"transmit-data:{which}"
+            what = (f"sends {len(got)} PDUs, PDU {i} = {got[i][:40] if i < len(got) else 'missing'}; expected {len(want)} PDUs, PDU {i} = "
+                    f"{want[i][:40] if i < len(want) else 'none'}")
+        F.add(key, f"ECU.transmit_data(<{n} bytes>, {bl}{'' if is_omit(mbl) else ', max_block_length=' + str(mbl)}) {what}", case,
+              impl={"status": st, "pdus": val[:400]}, model=m[:400], site="ECU.transmit_data")
+    return fs
+
+
+def eval_ecu_seq(ctx, count=False):
+    """ECU.leave_session with every reply positive: ECUReset(hardReset), the ping of wait_for_ecu, DiagnosticSessionControl(default)"""
+    F = Findings()
+    m = ctx.lean(["seq leave_session"])[0]
+    st, val = ecu_call("leave_session", [3], {})
+    if count:
+        ctx.ev()
+        ctx.kind("ecu-seq:leave_session")
+    if st != "sent" or val != m:
+        F.add("ecu-seq:leave_session", f"ECU.leave_session(3) sends {val[:80]}; expected {m}", {"direction": "ecu-seq", "method": "leave_session", "_size": 0},
+              impl={"status": st, "pdus": val}, model=m, site="ECU.leave_session")
+    return [F]
+
+
+def check_signatures(api, ALL):
+    """the parameter names / order / defaults the model has for every method are those of the live signatures (second reading of what
+    gen/c01_api.py translates)"""
+    import inspect as I
+
+    from gallia.services.uds.core.client import UDSClient
+    from gallia.services.uds.ecu import ECU
+
+    def live(owner, name):
+        f = getattr(owner, name, None)
+        if f is None:
+            return None
+        out = []
+        for n, p in I.signature(f).parameters.items():
+            if n in ("self", "config"):
+                continue
+            d = p.default
+            out.append((n, "req" if d is I._empty else "none" if d is None else f"bool:{b01(d)}" if isinstance(d, bool)
+                        else f"int:{d}" if isinstance(d, int) else f"bytes:{hx(d)}" if isinstance(d, bytes) else repr(d)))
+        return out
+
+    for meth, ps in api.sig.items():
+        owner = UDSClient if meth in api.client or meth == "_tester_present" else ECU
+        lv = live(owner, meth)
+        mv = [(n, d) for n, d, _ in ps]
+        if lv != mv:
+            ALL.add(f"client-signature:{meth}", f"{owner.__name__}.{meth}: parameters / defaults {lv} differ from the modelled {mv}",
+                    {"method": meth}, impl=lv, model=mv, site=f"{owner.__name__}.{meth}", spec=False)
 
 
 def byte_inputs(ctx, valid_pdus, sids):
@@ -930,29 +1311,39 @@ def run(ctx):
     ctx.notes["bytes_to_object"] = {"inputs": len(bs), "typed_by_oracle": typed}
     ctx.traces_validated += len(bs)
 
-    # ---- client glue
+    # ---- client glue: every call is compared with the Lean `denote` of the call
     from gallia.services.uds.core.client import UDSClient
 
+    global _API
+    api = _API = Api(ctx)
+    api.load_ctors(ctx)
     public = sorted(n for n, f in inspect.getmembers(UDSClient, inspect.iscoroutinefunction) if not n.startswith("_"))
-    unknown = [n for n in public if n not in METHODS and n not in INFRA]
-    missing = [n for n in METHODS if n not in public]
+    unknown = [n for n in public if n not in api.client and n not in INFRA]
+    missing = [n for n in api.client if n not in public]
     for n in unknown + missing:
-        ALL.add(f"client-method-set:{n}", f"UDSClient.{n}: public service methods differ from the set the check knows", {"method": n},
-                impl=public, model=sorted(METHODS), site="UDSClient", spec=False)
-    by_kind = {}
-    for (akind, p, label) in cases:
-        by_kind.setdefault(akind, []).append((p, label))
+        ALL.add(f"client-method-set:{n}", f"UDSClient.{n}: public service methods differ from the set the model has a `Call` for", {"method": n},
+                impl=public, model=sorted(api.client), site="UDSClient", spec=False)
+    check_signatures(api, ALL)
+    ag = ArgGen(ctx, gen)
     loop = asyncio.new_event_loop()
     try:
         calls = []
-        for meth, (akind, prefix) in METHODS.items():
-            if meth not in public:
+        gid = 0
+        n_values = 0
+        for meth in api.client + api.ecu:
+            if meth in missing:
                 continue
-            cand = [(p, l) for p, l in by_kind.get(akind, []) if tuple(p[: len(prefix)]) == tuple(prefix)]
-            pick = [c for c in cand if c[1] != "mixed"][: ctx.pick(60, 400)] + [c for c in cand if c[1] == "mixed"][: ctx.pick(10, 100)]
-            for p, label in pick:
-                calls.append((meth, p[len(prefix):], label))
-        merge(eval_client(ctx, loop, calls, count=True))
+            for idx, (args, label) in enumerate(ag.cases(api, meth)):
+                gid += 1
+                n_values += 1
+                for a, sp in spellings(api, meth, args, idx, ctx.rng, exhaustive=(idx == 0)):
+                    calls.append((meth, a, sp, label, gid))
+        merge(eval_client(ctx, loop, api, calls, count=True))
+        ctor_calls = [(meth, a, label) for meth, a, sp, label, _ in calls if sp == "positional" and any(is_omit(x) for x in a)]
+        merge(eval_ctor_defaults(ctx, impl, api, ctor_calls, count=True))
+        tcs = transmit_cases(ctx)
+        merge(eval_transmit(ctx, tcs, count=True))
+        merge(eval_ecu_seq(ctx, count=True))
         # _tester_present(suppress) writes directly
         t = _Transport()
         c = UDSClient(t, timeout=1.0)
@@ -961,8 +1352,16 @@ def run(ctx):
         if [hx(x) for x in t.sent] != ["3e80"]:
             ALL.add("client-bytes:_tester_present", "UDSClient._tester_present(True) does not write 3e80", {"method": "_tester_present"},
                     impl=[hx(x) for x in t.sent], model="3e80", site="UDSClient._tester_present")
-        ctx.traces_validated += len(calls) + 1
-        ctx.exhaustive_parts.append(f"client glue: all {len(METHODS)} public UDSClient service methods, boundary cases of every parameter")
+        ctx.traces_validated += len(calls) + len(tcs) + 2
+        ctx.notes["client_glue"] = {"methods": len(api.client), "ecu_helpers": len(api.ecu) + 2, "argument_tuples": n_values, "calls": len(calls),
+                                    "transmit_data_cases": len(tcs)}
+        ctx.exhaustive_parts.append(
+            f"client glue: all {len(api.client)} public UDSClient service methods and {len(api.ecu)} single-request ECU helpers against the Lean "
+            "`denote`: every boundary value of every parameter (one moved at a time) x arguments passed positionally / optional ones left "
+            "out (every subset for the base case) / passed by keyword; address/size/format sweep for the 6 memory-style methods; the "
+            "constructed request classes themselves with the same optional arguments left out")
+        ctx.exhaustive_parts.append("ECU.transmit_data: block lengths -1..5, 9 and 0xFFE..0x1001, data sizes 0, 1, p-1, p, p+1, 2p-1, 2p, 2p+1 and "
+                                    "254..257 / 513 blocks (counter wrap), max_block_length below / at / above the block length; ECU.leave_session")
 
         def evaluate(cands):
             d = cands[0]["direction"]
@@ -970,7 +1369,10 @@ def run(ctx):
                 return eval_objects(ctx, impl, [(c["kind"], unj(c["params"]), c.get("varied", "")) for c in cands])[0]
             if d == "bytes->object":
                 return eval_bytes(ctx, impl, [bytes.fromhex(c["pdu"]) if c["pdu"] != "-" else b"" for c in cands])[0]
-            return eval_client(ctx, loop, [(c["method"], unj(c["args"]), c.get("varied", "")) for c in cands])
+            if d == "ctor":
+                return eval_ctor_defaults(ctx, impl, api, [(c["method"], unj(c["args"]), c.get("varied", "")) for c in cands])
+            return eval_client(ctx, loop, api, [(c["method"], unj(c["args"]), c.get("spelling", "positional"), c.get("varied", ""), i)
+                                                for i, c in enumerate(cands)])
 
         ALL.flush(ctx, evaluate)
     finally:
@@ -991,18 +1393,37 @@ def replay(ctx, case):
             print("pdu   :", hx(b))
             print("impl  :", impl.dyn(b))
             print("oracle:", ctx.lean(["dec " + hx(b)])[0])
-        elif d == "client" and "kwargs" in c:
-            kw = dict(zip(c["kwargs"].keys(), unj(list(c["kwargs"].values()))))
-            print("call  :", c["method"], kw)
-            print("impl  :", client_call(loop, c["method"], (), kw))
-            print("the optional arguments left out mean:", {k: v for k, v in OMITTED_MEANS.items()})
-            return 0
         elif d == "client":
+            global _API
+            api = _API = Api(ctx)
             args = unj(c["args"])
-            f = eval_client(ctx, loop, [(c["method"], args, "replay")])[0]
-            print("call  :", c["method"], args)
-            print("impl  :", client_call(loop, c["method"], args))
-            print("oracle:", ctx.lean([mk_line(METHODS[c["method"]][0], list(METHODS[c["method"]][1]) + args)])[0][:400])
+            sp = c.get("spelling", "positional")
+            f = eval_client(ctx, loop, api, [(c["method"], args, sp, "replay", 0)])[0]
+            pos, kw = py_call(api, c["method"], args, sp)
+            print("call  :", c["method"], pos, kw)
+            print("impl  :", ecu_call(c["method"], pos, kw) if c["method"] in api.ecu else client_call(loop, c["method"], pos, kw))
+            print("oracle:", call_line(api, c["method"], args)[:200], "->", ctx.lean([call_line(api, c["method"], args)])[0][:400])
+        elif d == "ctor":
+            api = _API = Api(ctx)
+            api.load_ctors(ctx)
+            f = eval_ctor_defaults(ctx, impl, api, [(c["method"], unj(c["args"]), "replay")])[0]
+            print("class :", c["class"], unj(c["args"]))
+            print("oracle:", ctx.lean([call_line(api, c["method"], unj(c["args"]))])[0][:400])
+        elif d == "transmit":
+            mbl = OMIT if c["max_block_length"] is None else c["max_block_length"]
+            tc = (c["data_len"], c["block_length"], mbl, c.get("spelling", "positional"))
+            f = eval_transmit(ctx, [tc])[0]
+            print("call  : ECU.transmit_data(<%d bytes>, %s, max_block_length=%s)" % (tc[0], tc[1], "<left out>" if is_omit(mbl) else mbl))
+            for (k, _), v in f.best.items():
+                print("impl  :", v[3])
+                print("oracle:", v[4])
+        elif d == "ecu-seq":
+            f = eval_ecu_seq(ctx)[0]
+            print("call  : ECU.leave_session(3)")
+            print("oracle:", ctx.lean(["seq leave_session"])[0])
+        elif d is None:
+            print(json.dumps(c, indent=1, default=str)[:2000])
+            return 1
         else:
             akind, p = c["kind"], unj(c["params"])
             fs, out, res = eval_objects(ctx, impl, [(akind, p, "replay")] * 2)
@@ -1027,15 +1448,32 @@ MANIFEST = {
                    "well-formed request (never degraded to raw), encode (decode b) = b for every byte string, decode always "
                    "well-formed, encode injective, layout lemmas (service id, sub-function + suppress bit, big-endian identifiers, "
                    "address/length format), construction refuses exactly the out-of-range arguments, minimal address/length format. "
-                   "Tied to the code by (T) the registry table regenerated from the live UDSService._SERVICES (service ids, "
-                   "sub-function ids, min/max lengths; proof obligation registry_agrees) and (C) a correspondence run of every real "
-                   "request class (.pdu, Class.from_pdu, UDSRequest.parse_dynamic) and every public UDSClient service method "
-                   "(bytes handed to a scripted transport) against the model: boundary values of every field exhaustively, all "
-                   "address/size widths 1..15 x 1..15, all byte strings of length <= 2 (<= 3 per registered service in thorough), "
-                   "truncations / extensions / bit flips of valid PDUs."),
-    "level_note": ("Trusted: Lean kernel (axioms propext, Quot.sound, Classical.choice), the registry translator, the harness, "
-                   "struct / int.to_bytes contracts. The exception class of a refusal is not compared; controlOptionRecord and "
-                   "controlEnableMaskRecord are compared as their concatenation after parsing; abstract base classes are out of scope."),
-    "technique": "Lean 4 proof (structural induction, case analysis per request kind, decide +kernel registry agreement) + differential correspondence against the real request classes and UDSClient",
+                   "The service-method layer is inside the model (Model/UdsClientApi.lean): `Call` has one constructor per public "
+                   "UDSClient service method (35) and per single-request ECU helper (7), `denote` is the documented meaning of a call "
+                   "(defaults = no suppression, empty records, method 0, computed format byte), `bytesOf` interprets the code as written "
+                   "(parameter names / order / defaults, the class every method body constructs and what it passes for which constructor "
+                   "parameter, helper delegations - all regenerated from inspect.signature and the AST of client.py / ecu.py). Proved: "
+                   "call_bytes (bytesOf c = encode of the denoted request, same refusals), denote_wf / denote_refuses / denote_accepts, "
+                   "call_decode (the bytes of every call parse back to the denoted request, never raw), call_suppress_bit / "
+                   "call_no_suppress_unasked, call_fixed_subfn (method name -> service id and sub-function), call_ident_be, "
+                   "call_iocbi_parameter, omitted_equals_default, transmit_data_counters / _refuses / _bytes (counter starts at 1, wraps "
+                   "0xFF -> 0x00, chunks concatenate to the data and fit the block length, too small block lengths refused). "
+                   "Tied to the code by (T) the registry table regenerated from the live UDSService._SERVICES (registry_agrees) and the "
+                   "API tables (api_signature_agrees, api_sites_agree, api_table_agrees: a changed default, parameter, argument order, "
+                   "constructed class, delegation constant or an extra statement in a method body breaks the build) and (C) a "
+                   "correspondence run of every real request class (.pdu, Class.from_pdu, UDSRequest.parse_dynamic), of every public "
+                   "UDSClient service method and ECU helper (bytes handed to a scripted transport against the Lean `denote`: boundary "
+                   "values of every parameter, sub-functions / masks / counters / method nibbles exhaustively, arguments positional / left "
+                   "out / by keyword, the request classes themselves with optional arguments left out), ECU.transmit_data over block "
+                   "lengths around 2 and 0xFFF, data sizes around multiples of the payload size and 254..257 / 513 blocks, "
+                   "ECU.leave_session; all address/size widths 1..15 x 1..15, all byte strings of length <= 2 (<= 3 per registered "
+                   "service in thorough), truncations / extensions / bit flips of valid PDUs."),
+    "level_note": ("Trusted: Lean kernel (axioms propext, Quot.sound, Classical.choice), the registry and API translators (gen/c01_registry.py, "
+                   "gen/c01_api.py; the signatures are read a second time by the harness), the harness, struct / int.to_bytes contracts, "
+                   "Python's argument binding. The exception class of a refusal is not compared; controlOptionRecord and "
+                   "controlEnableMaskRecord are compared as their concatenation after parsing; abstract base classes are out of scope; "
+                   "the `config` parameter and the reply-dependent paths of the ECU helpers (negative replies, database session "
+                   "transitions, power cycling) are outside the model."),
+    "technique": "Lean 4 proof (structural induction, case analysis per request kind / per method, decide +kernel table agreements, an interpreter over the regenerated API tables proved equal to the documented meaning) + differential correspondence against the real request classes, UDSClient and ECU",
     "design_ref": "DESIGN.md section 7, C01",
 }
